@@ -26,6 +26,7 @@ pub(crate) fn storage_around(zalsa: Zalsa) -> Storage<VDb> {
 #[kani::proof]
 #[kani::unwind(5)]
 #[kani::stub(real_catch_unwind, stub_catch_unwind)]
+#[kani::stub(crate::sync::Condvar::wait, stub_condvar_wait)]
 fn c02_o8_synthetic_write_public_api() {
     let (mut zalsa, revs) = any_zalsa();
     let epoch: u8 = kani::any();
@@ -64,6 +65,7 @@ fn c02_o8_synthetic_write_public_api() {
 #[kani::unwind(5)]
 #[kani::should_panic]
 #[kani::stub(real_catch_unwind, stub_catch_unwind)]
+#[kani::stub(crate::sync::Condvar::wait, stub_condvar_wait)]
 fn c02_o8_never_change_synthetic_write_panics() {
     let (zalsa, _) = any_zalsa();
     let mut db = VDb::verif_new(storage_around(zalsa));
@@ -80,6 +82,7 @@ fn c02_o8_never_change_synthetic_write_panics() {
 #[kani::proof]
 #[kani::unwind(5)]
 #[kani::stub(real_catch_unwind, stub_catch_unwind)]
+#[kani::stub(crate::sync::Condvar::wait, stub_condvar_wait)]
 fn c20_o5_write_acquisition_advances_epoch() {
     let (mut zalsa, revs) = any_zalsa();
     let epoch: u8 = kani::any();
